@@ -16,213 +16,97 @@
 #define sexp_bignum_normalize(x) x
 #endif
 
-/* The twos complement form of a negative bignum has a -1 sign */
-/* and bits adjusted as usual, extending just the high word with */
-/* leading ones.  Bitwise operations are then performed as usual. */
-/* If the result has a leading extended one from a twos complement */
-/* number, the complement is reversed and sign remains negative. */
-/* Otherwise, the result is positive, the sign is set to 1 and there's */
-/* no need to undo the complement. */
-static void sexp_set_twos_complement (sexp a) {
-  int i, len=sexp_bignum_length(a), carry = 1;
-  sexp_uint_t* data = sexp_bignum_data(a), n;
-  for (i=len-1; i >=0; --i)
-    data[i] = ~data[i];
-  /* sexp_bignum_fxadd with no final carry */
-  i = 0;
-  do { n = data[i];
-       data[i] += carry;
-       carry = (n > (SEXP_UINT_T_MAX - carry));
-  } while (++i<len && carry);
-}
-
-static sexp sexp_twos_complement (sexp ctx, sexp x) {
-  sexp_gc_var1(res);
-  if (sexp_bignump(x) && sexp_bignum_sign(x) < 0) {
-    sexp_gc_preserve1(ctx, res);
-    res = sexp_copy_bignum(ctx, NULL, x, 0);
-    sexp_set_twos_complement(res);
-    sexp_gc_release1(ctx);
-    return res;
+#if SEXP_USE_BIGNUMS
+/* Bignums are stored as sign and magnitude, while the bitwise operators are */
+/* defined on the infinite two's complement representation.  Word i of that */
+/* representation of x is produced on the fly: the magnitude word for a */
+/* non-negative x, and ~word + carry for a negative x, where the carry of */
+/* the "+1" of the negation starts at 1 and survives only across zero words. */
+static sexp_uint_t sexp_bignum_twos_complement_word (sexp x, sexp_sint_t i, sexp_uint_t *carry) {
+  sexp_uint_t w = (i < (sexp_sint_t)sexp_bignum_length(x)) ? sexp_bignum_data(x)[i] : 0;
+  if (sexp_bignum_sign(x) < 0) {
+    w = ~w + *carry;
+    *carry = (*carry && (w == 0));
   }
-  return x;
+  return w;
 }
 
-static sexp sexp_fixnum_to_twos_complement (sexp ctx, sexp x, int len) {
-  int i;
-  sexp_gc_var1(res);
-  sexp_gc_preserve1(ctx, res);
+enum sexp_bit_operator { SEXP_BIT_AND, SEXP_BIT_IOR, SEXP_BIT_XOR };
+
+/* x and y are fixnums or bignums, not both fixnums */
+static sexp sexp_bignum_bit_op (sexp ctx, sexp x, sexp y, enum sexp_bit_operator op) {
+  sexp_sint_t len, i;
+  sexp_uint_t a, b, cx=1, cy=1, cr=1, *data;
+  sexp_gc_var3(res, x2, y2);
+  sexp_gc_preserve3(ctx, res, x2, y2);
+  x2 = sexp_fixnump(x) ? sexp_fixnum_to_bignum(ctx, x) : x;
+  y2 = sexp_fixnump(y) ? sexp_fixnum_to_bignum(ctx, y) : y;
+  /* one extra word, so that the top word of each operand, and hence of */
+  /* the result, is pure sign extension */
+  len = (sexp_bignum_length(x2) > sexp_bignum_length(y2)
+         ? sexp_bignum_length(x2) : sexp_bignum_length(y2)) + 1;
   res = sexp_make_bignum(ctx, len);
-  if (sexp_unbox_fixnum(x) < 0)
-    for (i = len-1; i > 0; i--)
-      sexp_bignum_data(res)[i] = (sexp_uint_t)((sexp_sint_t)-1);
-  sexp_bignum_data(res)[0] = ~(-(sexp_unbox_fixnum(x)));
-  res = sexp_bignum_fxadd(ctx, res, 1);
-  if (sexp_bignum_length(res) == len + 1 && sexp_bignum_data(res)[len] == 1)
-    sexp_bignum_data(res)[len] = -1;
-  if (sexp_unbox_fixnum(x) < 0)
-    sexp_bignum_sign(res) = -1;
-  sexp_gc_release1(ctx);
+  if (!sexp_exceptionp(res)) {
+    data = sexp_bignum_data(res);
+    for (i=0; i<len; i++) {
+      a = sexp_bignum_twos_complement_word(x2, i, &cx);
+      b = sexp_bignum_twos_complement_word(y2, i, &cy);
+      data[i] = (op == SEXP_BIT_AND) ? (a & b) : (op == SEXP_BIT_IOR) ? (a | b) : (a ^ b);
+    }
+    if (data[len-1] != 0) {     /* negative: back to sign and magnitude */
+      for (i=0; i<len; i++) {
+        data[i] = ~data[i] + cr;
+        cr = (cr && (data[i] == 0));
+      }
+      sexp_bignum_sign(res) = -1;
+    }
+    res = sexp_bignum_normalize(res);
+  }
+  sexp_gc_release3(ctx);
   return res;
 }
+#endif
 
 sexp sexp_bit_and (sexp ctx, sexp self, sexp_sint_t n, sexp x, sexp y) {
-#if SEXP_USE_BIGNUMS
-  sexp_sint_t len, lenx, leny, i;
-#endif
-  sexp_gc_var3(res, x2, y2);
-  if (sexp_fixnump(x) && sexp_fixnump(y)) {
+  if (sexp_fixnump(x) && sexp_fixnump(y))
     return (sexp) ((sexp_uint_t)x & (sexp_uint_t)y);  /* safe to AND tags */
 #if SEXP_USE_BIGNUMS
-  } else if (sexp_fixnump(x) && sexp_bignump(y)) {
-    return sexp_bit_and(ctx, self, n, y, x);
-  } else if (sexp_bignump(x)) {
-    sexp_gc_preserve3(ctx, res, x2, y2);
-    x2 = sexp_twos_complement(ctx, x);
-    y2 = sexp_twos_complement(ctx, y);
-    if (sexp_fixnump(y2) && sexp_unbox_fixnum(y2) < 0)
-      y2 = sexp_fixnum_to_twos_complement(ctx, y2, sexp_bignum_length(x2));
-    if (sexp_fixnump(y2)) {
-      res = sexp_make_fixnum(sexp_unbox_fixnum(y2) & sexp_bignum_data(x2)[0]);
-    } else if (sexp_bignump(y2)) {
-      lenx = sexp_bignum_length(x2);
-      leny = sexp_bignum_length(y2);
-      if (leny < lenx)
-        res = sexp_copy_bignum(ctx, NULL, x2, 0);
-      else
-        res = sexp_copy_bignum(ctx, NULL, y2, 0);
-      for (i=0, len=sexp_bignum_length(res); i<len; i++)
-        sexp_bignum_data(res)[i]
-          = (i<lenx ? sexp_bignum_data(x2)[i] : sexp_bignum_sign(x2) < 0 ? -1 : 0) &
-            (i<leny ? sexp_bignum_data(y2)[i] : sexp_bignum_sign(y2) < 0 ? -1 : 0);
-      if ((sexp_bignum_sign(x2) < 0 || sexp_bignum_sign(y2) < 0) && ((sexp_sint_t)(sexp_bignum_data(res)[len-1])) < 0) {
-        sexp_set_twos_complement(res);
-        if (sexp_bignum_sign(res) > 0) {
-          sexp_negate_exact(res);
-        }
-      } else if (sexp_bignum_sign(res) < 0) {
-        sexp_negate_exact(res);
-      }
-    } else {
-      res = sexp_type_exception(ctx, self, SEXP_FIXNUM, y2);
-    }
-    sexp_gc_release3(ctx);
-    return sexp_bignum_normalize(res);
-#endif
-  } else {
+  if (! (sexp_fixnump(x) || sexp_bignump(x)))
     return sexp_type_exception(ctx, self, SEXP_FIXNUM, x);
-  }
+  if (! (sexp_fixnump(y) || sexp_bignump(y)))
+    return sexp_type_exception(ctx, self, SEXP_FIXNUM, y);
+  return sexp_bignum_bit_op(ctx, x, y, SEXP_BIT_AND);
+#else
+  return sexp_type_exception(ctx, self, SEXP_FIXNUM, sexp_fixnump(x) ? y : x);
+#endif
 }
 
 sexp sexp_bit_ior (sexp ctx, sexp self, sexp_sint_t n, sexp x, sexp y) {
+  if (sexp_fixnump(x) && sexp_fixnump(y))
+    return (sexp) ((sexp_uint_t)x | (sexp_uint_t)y);
 #if SEXP_USE_BIGNUMS
-  sexp_sint_t len, tmplen, i;
+  if (! (sexp_fixnump(x) || sexp_bignump(x)))
+    return sexp_type_exception(ctx, self, SEXP_FIXNUM, x);
+  if (! (sexp_fixnump(y) || sexp_bignump(y)))
+    return sexp_type_exception(ctx, self, SEXP_FIXNUM, y);
+  return sexp_bignum_bit_op(ctx, x, y, SEXP_BIT_IOR);
+#else
+  return sexp_type_exception(ctx, self, SEXP_FIXNUM, sexp_fixnump(x) ? y : x);
 #endif
-  sexp_gc_var2(res, tmp);
-  if (sexp_fixnump(x)) {
-    if (sexp_fixnump(y))
-      res = (sexp) ((sexp_uint_t)x | (sexp_uint_t)y);
-#if SEXP_USE_BIGNUMS
-    else if (sexp_bignump(y))
-      res = sexp_bit_ior(ctx, self, n, y, x);
-#endif
-    else
-      res = sexp_type_exception(ctx, self, SEXP_FIXNUM, y);
-#if SEXP_USE_BIGNUMS
-  } else if (sexp_bignump(x)) {
-    sexp_gc_preserve2(ctx, res, tmp);
-    if (sexp_fixnump(y) && sexp_unbox_fixnum(y) >= 0) {
-      res = sexp_copy_bignum(ctx, NULL, x, 0);
-      if (sexp_bignum_sign(res) < 0)
-        sexp_set_twos_complement(res);
-      sexp_bignum_data(res)[0] |= (sexp_uint_t)sexp_unbox_fixnum(y);
-      if (sexp_bignum_sign(res) < 0)
-        sexp_set_twos_complement(res);
-    } else if (sexp_bignump(y) || sexp_fixnump(y)) {
-      if (sexp_fixnump(y) || sexp_bignum_length(x) >= sexp_bignum_length(y)) {
-        res = sexp_copy_bignum(ctx, NULL, x, 0);
-        len = sexp_bignum_length(res);
-        tmp = sexp_fixnump(y) ? sexp_fixnum_to_twos_complement(ctx, y, len) : sexp_twos_complement(ctx, y);
-      } else {
-        res = sexp_copy_bignum(ctx, NULL, y, 0);
-        len = sexp_bignum_length(res);
-        tmp = sexp_twos_complement(ctx, x);
-      }
-      if (sexp_bignum_sign(res) < 0)
-        sexp_set_twos_complement(res);
-      tmplen = sexp_bignum_length(tmp);
-      for (i=0; i<len; i++)
-        sexp_bignum_data(res)[i] |= (i<tmplen ? sexp_bignum_data(tmp)[i] : sexp_bignum_sign(tmp) < 0 ? -1 : 0);
-      if ((sexp_bignum_sign(res) < 0 || sexp_bignum_sign(tmp) < 0) && ((sexp_sint_t)(sexp_bignum_data(res)[len-1])) < 0) {
-        sexp_set_twos_complement(res);
-        if (sexp_bignum_sign(res) > 0) {
-          sexp_negate_exact(res);
-        }
-      }
-    } else {
-      res = sexp_type_exception(ctx, self, SEXP_FIXNUM, y);
-    }
-    sexp_gc_release2(ctx);
-#endif
-  } else {
-    res = sexp_type_exception(ctx, self, SEXP_FIXNUM, x);
-  }
-  return sexp_bignum_normalize(res);
 }
 
 sexp sexp_bit_xor (sexp ctx, sexp self, sexp_sint_t n, sexp x, sexp y) {
+  if (sexp_fixnump(x) && sexp_fixnump(y))
+    return sexp_make_fixnum(sexp_unbox_fixnum(x) ^ sexp_unbox_fixnum(y));
 #if SEXP_USE_BIGNUMS
-  sexp_sint_t len, tmplen, i;
+  if (! (sexp_fixnump(x) || sexp_bignump(x)))
+    return sexp_type_exception(ctx, self, SEXP_FIXNUM, x);
+  if (! (sexp_fixnump(y) || sexp_bignump(y)))
+    return sexp_type_exception(ctx, self, SEXP_FIXNUM, y);
+  return sexp_bignum_bit_op(ctx, x, y, SEXP_BIT_XOR);
+#else
+  return sexp_type_exception(ctx, self, SEXP_FIXNUM, sexp_fixnump(x) ? y : x);
 #endif
-  sexp_gc_var2(res, tmp);
-  if (sexp_fixnump(x)) {
-    if (sexp_fixnump(y))
-      res = sexp_make_fixnum(sexp_unbox_fixnum(x) ^ sexp_unbox_fixnum(y));
-#if SEXP_USE_BIGNUMS
-    else if (sexp_bignump(y))
-      res = sexp_bit_xor(ctx, self, n, y, x);
-#endif
-    else
-      res = sexp_type_exception(ctx, self, SEXP_FIXNUM, y);
-#if SEXP_USE_BIGNUMS
-  } else if (sexp_bignump(x)) {
-    sexp_gc_preserve2(ctx, res, tmp);
-    if (sexp_fixnump(y) && sexp_unbox_fixnum(y) >= 0) {
-      res = sexp_copy_bignum(ctx, NULL, x, 0);
-      if (sexp_bignum_sign(res) < 0)
-        sexp_set_twos_complement(res);
-      sexp_bignum_data(res)[0] ^= sexp_unbox_fixnum(y);
-      if (sexp_bignum_sign(res) < 0)
-        sexp_set_twos_complement(res);
-    } else if (sexp_bignump(y) || sexp_fixnump(y)) {
-      if (sexp_fixnump(y) || sexp_bignum_length(x) >= sexp_bignum_length(y)) {
-        res = sexp_copy_bignum(ctx, NULL, x, 0);
-        tmp = sexp_fixnump(y) ? sexp_fixnum_to_twos_complement(ctx, y, sexp_bignum_length(x)) : sexp_twos_complement(ctx, y);
-        len = sexp_bignum_length(tmp);
-      } else {
-        res = sexp_copy_bignum(ctx, NULL, y, 0);
-        tmp = sexp_twos_complement(ctx, y);
-        len = sexp_bignum_length(tmp);
-      }
-      if (sexp_bignum_sign(res) < 0)
-        sexp_set_twos_complement(res);
-      tmplen = sexp_bignum_length(tmp);
-      for (i=0; i<len; i++)
-        sexp_bignum_data(res)[i] ^= (i<tmplen ? sexp_bignum_data(tmp)[i] : sexp_bignum_sign(tmp) < 0 ? -1 : 0);
-      if ((sexp_bignum_sign(x) < 0) ^ (sexp_fixnump(y) || sexp_bignum_sign(y) < 0))
-        sexp_set_twos_complement(res);
-      if (sexp_fixnump(y) || sexp_bignum_sign(y) < 0) {
-        sexp_negate_exact(res);
-      }
-    } else {
-      res = sexp_type_exception(ctx, self, SEXP_FIXNUM, y);
-    }
-    sexp_gc_release2(ctx);
-#endif
-  } else {
-    res = sexp_type_exception(ctx, self, SEXP_FIXNUM, x);
-  }
-  return sexp_bignum_normalize(res);
 }
 
 static int log2i(sexp_uint_t v) {
@@ -250,7 +134,8 @@ sexp sexp_arithmetic_shift (sexp ctx, sexp self, sexp_sint_t n, sexp i, sexp cou
   if (c == 0) return i;
   if (sexp_fixnump(i)) {
     if (c < 0) {
-      res = sexp_make_fixnum(c > -sizeof(sexp_sint_t)*CHAR_BIT ? sexp_unbox_fixnum(i) >> -c : 0);
+      res = sexp_make_fixnum(c > -(sexp_sint_t)(sizeof(sexp_sint_t)*CHAR_BIT) ? sexp_unbox_fixnum(i) >> -c
+                             : sexp_unbox_fixnum(i) < 0 ? -1 : 0);
     } else {
 #if SEXP_USE_BIGNUMS
       if ((log2i(sexp_unbox_fixnum(i)) + c + 1)
@@ -287,8 +172,17 @@ sexp sexp_arithmetic_shift (sexp ctx, sexp self, sexp_sint_t n, sexp i, sexp cou
               tmp = sexp_bignum_data(i)[j+offset]
                 << (sizeof(sexp_uint_t)*CHAR_BIT-bit_shift);
           }
-          if (sexp_bignum_sign(res) < 0)
-            res = sexp_bignum_fxadd(ctx, res, 1);
+          /* floor: a negative quotient is rounded away from zero only */
+          /* if some non-zero bit was shifted out */
+          if (sexp_bignum_sign(res) < 0) {
+            for (j=0, tmp=0; j<offset && j<len; j++)
+              tmp |= sexp_bignum_data(i)[j];
+            if (bit_shift != 0 && offset < len)
+              tmp |= sexp_bignum_data(i)[offset]
+                << (sizeof(sexp_uint_t)*CHAR_BIT-bit_shift);
+            if (tmp != 0)
+              res = sexp_bignum_fxadd(ctx, res, 1);
+          }
         }
       }
     } else {
@@ -329,15 +223,19 @@ sexp sexp_bit_count (sexp ctx, sexp self, sexp_sint_t n, sexp x) {
   sexp res;
   sexp_sint_t i;
 #if SEXP_USE_BIGNUMS
-  sexp_uint_t count;
+  sexp_uint_t count, borrow;
 #endif
   if (sexp_fixnump(x)) {
     i = sexp_unbox_fixnum(x);
     res = sexp_make_fixnum(bit_count(i<0 ? ~i : i));
 #if SEXP_USE_BIGNUMS
   } else if (sexp_bignump(x)) {
-    for (i=count=0; i<(sexp_sint_t)sexp_bignum_length(x); i++)
-      count += bit_count(sexp_bignum_data(x)[i]);
+    /* for negative x count the bits of (bitwise-not x) = |x| - 1 */
+    borrow = (sexp_bignum_sign(x) < 0);
+    for (i=count=0; i<(sexp_sint_t)sexp_bignum_length(x); i++) {
+      count += bit_count(sexp_bignum_data(x)[i] - borrow);
+      borrow = (borrow && (sexp_bignum_data(x)[i] == 0));
+    }
     res = sexp_make_fixnum(count);
 #endif
   } else {
@@ -371,6 +269,7 @@ sexp sexp_integer_length (sexp ctx, sexp self, sexp_sint_t n, sexp x) {
   sexp_sint_t tmp;
 #if SEXP_USE_BIGNUMS
   sexp_sint_t hi;
+  sexp_uint_t top;
 #endif
   if (sexp_fixnump(x)) {
     tmp = sexp_unbox_fixnum(x);
@@ -378,7 +277,15 @@ sexp sexp_integer_length (sexp ctx, sexp self, sexp_sint_t n, sexp x) {
 #if SEXP_USE_BIGNUMS
   } else if (sexp_bignump(x)) {
     hi = sexp_bignum_hi(x);
-    return sexp_make_fixnum(integer_log2(sexp_bignum_data(x)[hi-1])
+    top = sexp_bignum_data(x)[hi-1];
+    if (sexp_bignum_sign(x) < 0) {
+      /* the length of (bitwise-not x) = |x| - 1: the borrow reaches the */
+      /* top word only if every lower word is zero */
+      for (tmp=0; tmp<hi-1 && sexp_bignum_data(x)[tmp] == 0; tmp++)
+        ;
+      if (tmp == hi-1) top--;
+    }
+    return sexp_make_fixnum(integer_log2(top)
                             + (hi-1)*sizeof(sexp_uint_t)*CHAR_BIT);
 #endif
   } else {
@@ -389,7 +296,8 @@ sexp sexp_integer_length (sexp ctx, sexp self, sexp_sint_t n, sexp x) {
 sexp sexp_bit_set_p (sexp ctx, sexp self, sexp_sint_t n, sexp i, sexp x) {
   sexp_sint_t pos;
 #if SEXP_USE_BIGNUMS
-  sexp_sint_t rem;
+  sexp_sint_t rem, j;
+  sexp_uint_t word;
 #endif
   if (! sexp_fixnump(i))
     return sexp_type_exception(ctx, self, SEXP_FIXNUM, i);
@@ -404,9 +312,17 @@ sexp sexp_bit_set_p (sexp ctx, sexp self, sexp_sint_t n, sexp i, sexp x) {
   } else if (sexp_bignump(x)) {
     pos /= (sizeof(sexp_uint_t)*CHAR_BIT);
     rem = (sexp_unbox_fixnum(i) - pos*sizeof(sexp_uint_t)*CHAR_BIT);
-    return sexp_make_boolean((pos < (sexp_sint_t)sexp_bignum_length(x))
-                             ? (sexp_bignum_data(x)[pos] & ((sexp_uint_t)1<<rem))
-                             : sexp_bignum_sign(x) < 0);
+    if (pos >= (sexp_sint_t)sexp_bignum_length(x))
+      return sexp_make_boolean(sexp_bignum_sign(x) < 0);
+    word = sexp_bignum_data(x)[pos];
+    if (sexp_bignum_sign(x) < 0) {
+      /* word of the two's complement: ~word plus the carry of the */
+      /* negation, which survives only across zero words */
+      for (j=0; j<pos && sexp_bignum_data(x)[j] == 0; j++)
+        ;
+      word = ~word + (j == pos);
+    }
+    return sexp_make_boolean(word & ((sexp_uint_t)1<<rem));
 #endif
   } else {
     return sexp_type_exception(ctx, self, SEXP_FIXNUM, x);
